@@ -1015,3 +1015,223 @@ Proof.
     by now rewrite <- !app_assoc.
   rewrite skipn_app_exact. apply has_prefix_app.
 Qed.
+
+(* ==================================================================================== *)
+(* primitive sufficient conditions for the premises of C06_fires:
+   "the trigger is the last marker" from "no marker in the tail";
+   "no control-mode framing" from "no '%' in the buffer" *)
+
+(* no two adjacent ':' and no ':' at the end *)
+Fixpoint qb (l : list N) : bool :=
+  match l with
+  | [] => true
+  | x :: r => match r with
+              | [] => negb (x =? ch_colon)
+              | y :: _ => negb ((x =? ch_colon) && (y =? ch_colon)) && qb r
+              end
+  end.
+
+Definition colon2 (l : list N) : bool :=
+  match l with x :: y :: _ => (x =? ch_colon) && (y =? ch_colon) | _ => false end.
+
+Lemma qb_no_colon2 : forall X, qb X = true -> forall j t, (j < length X)%nat -> colon2 (skipn j (X ++ t)) = false.
+Proof.
+  induction X as [|x X IH]; intros H j t Hj; [cbn in Hj; lia|].
+  destruct X as [|y X].
+  - destruct j; [|cbn in Hj; lia]. cbn [skipn app colon2]. cbn [qb] in H. apply negb_true_iff in H.
+    destruct t; [reflexivity|]. now rewrite H.
+  - cbn [qb] in H. apply andb_true_iff in H as [H1 H2]. destruct j as [|j].
+    + cbn [skipn app colon2]. now apply negb_true_iff in H1.
+    + cbn [skipn app]. apply (IH H2). cbn [length] in Hj |- *. lia.
+Qed.
+
+Lemma qb_app : forall X Y, qb X = true -> qb Y = true -> qb (X ++ Y) = true.
+Proof.
+  induction X as [|x X IH]; intros Y HX HY; [exact HY|].
+  destruct X as [|y X].
+  - cbn [app]. cbn [qb] in HX. apply negb_true_iff in HX. destruct Y as [|y Y]; [cbn [qb]; now rewrite HX|].
+    change (qb (x :: y :: Y)) with (negb ((x =? ch_colon) && (y =? ch_colon)) && qb (y :: Y)). now rewrite HX, HY.
+  - cbn [qb] in HX. apply andb_true_iff in HX as [H1 H2].
+    change (qb ((x :: y :: X) ++ Y)) with (negb ((x =? ch_colon) && (y =? ch_colon)) && qb ((y :: X) ++ Y)).
+    rewrite H1. now rewrite (IH Y H2 HY).
+Qed.
+
+Lemma digit_not_colon : forall x, is_digit x = true -> (x =? ch_colon) = false.
+Proof.
+  intros x H. unfold is_digit in H. apply andb_true_iff in H as [H1 H2]. apply N.leb_le in H2.
+  apply N.eqb_neq. unfold ch_colon. lia.
+Qed.
+
+Lemma qb_digits : forall d, all_digits d = true -> qb d = true.
+Proof.
+  induction d as [|x d IH]; intro H; [reflexivity|]. cbn [all_digits forallb] in H.
+  apply andb_true_iff in H as [Hx Hd]. pose proof (digit_not_colon x Hx) as Hc. destruct d as [|y d].
+  - cbn [qb]. now rewrite Hc.
+  - change (qb (x :: y :: d)) with (negb ((x =? ch_colon) && (y =? ch_colon)) && qb (y :: d)). rewrite Hc. now rewrite (IH Hd).
+Qed.
+
+Lemma qb_colon_digits : forall d, dstr d -> qb (ch_colon :: d) = true.
+Proof.
+  intros [|y d] [Hne Hd]; [congruence|].
+  change (qb (ch_colon :: y :: d)) with (negb ((ch_colon =? ch_colon) && (y =? ch_colon)) && qb (y :: d)).
+  cbn [all_digits forallb] in Hd. pose proof Hd as Hd'. apply andb_true_iff in Hd as [Hy _].
+  rewrite (digit_not_colon y Hy), andb_false_r. now rewrite (qb_digits (y :: d) Hd').
+Qed.
+
+Lemma qb_opt_field : forall o, opt_dstr o -> qb (opt_field o) = true.
+Proof. intros [d|] H; [now apply qb_colon_digits | reflexivity]. Qed.
+
+Lemma mode_not_colon : forall m, is_mode m = true -> (m =? ch_colon) = false.
+Proof.
+  intros m H. unfold is_mode in H. apply N.eqb_neq. intros ->. discriminate H.
+Qed.
+
+(* everything of a trigger text behind its first byte *)
+Definition marker_mid : list N := [58; 84; 82; 90; 83; 90; 58; 84; 82; 65; 78; 83; 70; 69; 82].
+Lemma marker_mid_ok : marker = ch_colon :: marker_mid ++ [ch_colon]. Proof. reflexivity. Qed.
+
+Lemma trigger_text_qb : forall m txt, trigger_text m txt -> exists X, txt = ch_colon :: X /\ qb X = true.
+Proof.
+  intros m txt H. destruct H as [mode a b c id port Hm Ha Hb Hc Hid Hport _].
+  exists ((marker_mid ++ [ch_colon; mode]) ++ (ch_colon :: a) ++ ([ch_dot] ++ b) ++ ([ch_dot] ++ c) ++ opt_field id ++ opt_field port).
+  split.
+  - unfold trig_text, vtext. rewrite marker_mid_ok. repeat (rewrite <- app_assoc || cbn [app]). reflexivity.
+  - repeat apply qb_app.
+    + reflexivity.
+    + change (qb [ch_colon; mode]) with (negb ((ch_colon =? ch_colon) && (mode =? ch_colon)) && negb (mode =? ch_colon)).
+      now rewrite (mode_not_colon mode Hm).
+    + now apply qb_colon_digits.
+    + reflexivity.
+    + apply qb_digits. apply Hb.
+    + reflexivity.
+    + apply qb_digits. apply Hc.
+    + now apply qb_opt_field.
+    + now apply qb_opt_field.
+Qed.
+
+Lemma marker_colon2 : forall l, has_prefix marker l = true -> colon2 l = true.
+Proof. intros l H. apply has_prefix_true in H as [r ->]. reflexivity. Qed.
+
+Lemma last_marker_clean : forall m txt tail, trigger_text m txt -> contains marker tail = false ->
+  last_index_of marker (txt ++ tail) = Some O.
+Proof.
+  intros m txt tail Ht Hc. apply last_index_intro; [discriminate | |].
+  - cbn [skipn]. apply has_prefix_true. apply trigger_text_marker in Ht. apply has_prefix_true in Ht as [r ->].
+    exists (r ++ tail). now rewrite app_assoc.
+  - intros j Hj. destruct (has_prefix marker (skipn j (txt ++ tail))) eqn:E; [exfalso|reflexivity].
+    destruct (trigger_text_qb _ _ Ht) as (X & -> & HX). destruct j as [|j]; [lia|]. cbn [app skipn] in E.
+    destruct (Nat.lt_ge_cases j (length X)) as [Hlt|Hge].
+    + apply marker_colon2 in E. now rewrite (qb_no_colon2 X HX j tail Hlt) in E.
+    + rewrite skipn_app, (skipn_all2 X) in E by exact Hge. cbn [app] in E.
+      now rewrite (proj1 (contains_false marker tail) Hc) in E.
+Qed.
+
+(* inserting "#R" (or anything starting with a byte the marker lacks, followed by bytes
+   that are not ':') creates no marker *)
+Lemma has_prefix_before : forall p X c Y, ~ In c p -> has_prefix p (X ++ c :: Y) = true -> has_prefix p X = true.
+Proof.
+  induction p as [|a p IH]; intros X c Y Hn H; [reflexivity|].
+  destruct X as [|x X].
+  - cbn [app has_prefix] in H. apply andb_true_iff in H as [H _]. apply N.eqb_eq in H. subst. exfalso. apply Hn. now left.
+  - cbn [app has_prefix] in H |- *. apply andb_true_iff in H as [H1 H2]. rewrite H1. cbn [andb].
+    apply (IH X c Y); [|exact H2]. intro Hi. apply Hn. now right.
+Qed.
+
+Lemma has_prefix_extend : forall p X Z, has_prefix p X = true -> has_prefix p (X ++ Z) = true.
+Proof. intros p X Z H. apply has_prefix_true in H as [r ->]. rewrite <- app_assoc. apply has_prefix_app. Qed.
+
+Lemma relay_suffix_is : Consts.det_relay_suffix = [35; 82] /\ ~ In 35 marker.
+Proof. split; [reflexivity|]. cbn. intuition discriminate. Qed.
+
+Lemma marker_insert : forall A B, contains marker (A ++ B) = false ->
+  contains marker (A ++ Consts.det_relay_suffix ++ B) = false.
+Proof.
+  intros A B H. apply contains_false. intro j. destruct relay_suffix_is as [-> Hn]. cbn [app].
+  destruct (has_prefix marker (skipn j (A ++ 35 :: 82 :: B))) eqn:E; [exfalso|reflexivity].
+  pose proof (proj1 (contains_false _ _) H) as Hno.
+  destruct (Nat.le_gt_cases j (length A)) as [Hle|Hgt].
+  - rewrite skipn_app in E. replace (j - length A)%nat with O in E by lia. cbn [skipn] in E.
+    apply has_prefix_before in E; [|exact Hn]. specialize (Hno j). rewrite skipn_app in Hno.
+    now rewrite (has_prefix_extend _ _ _ E) in Hno.
+  - rewrite skipn_app, (skipn_all2 A) in E by lia. cbn [app] in E.
+    remember (j - length A)%nat as k eqn:Hk. destruct k as [|[|k]]; [lia | discriminate E |].
+    cbn [skipn] in E. specialize (Hno (length A + k)%nat). rewrite skipn_app, (skipn_all2 A) in Hno by lia.
+    cbn [app] in Hno. replace (length A + k - length A)%nat with k in Hno by lia. congruence.
+Qed.
+
+(* control-mode framing needs a '%' *)
+Lemma tmux_prefix_at_percent : forall l x, tmux_prefix_at l = Some x -> exists r, l = 37 :: r.
+Proof.
+  intros l x H. unfold tmux_prefix_at in H. destruct (strip_prefix lit_output l) as [l1|] eqn:E1.
+  - apply strip_prefix_some in E1 as ->. eexists. reflexivity.
+  - destruct (strip_prefix lit_ext_output l) as [l1|] eqn:E2; [|discriminate].
+    apply strip_prefix_some in E2 as ->. eexists. reflexivity.
+Qed.
+
+Lemma find_tmux_no_percent : forall l, ~ In 37 l -> find_tmux l = None.
+Proof.
+  induction l as [|x l IH]; intro Hn.
+  - reflexivity.
+  - cbn [find_tmux]. unfold tmux_at at 1. destruct (tmux_prefix_at (x :: l)) as [[p rest]|] eqn:E.
+    + apply tmux_prefix_at_percent in E as [r [= -> ->]]. exfalso. apply Hn. now left.
+    + apply IH. intro Hi. apply Hn. now right.
+Qed.
+
+(* C06_fires with primitive premises, for the three flag combinations without re-tagging:
+   arbitrary prefix, no marker behind the trigger, no '%' in the read *)
+Lemma fires_clean : forall w d tunnel pre m txt tail ver,
+  d_relay d && d_tmux d = false ->
+  trigger_text m txt -> greedy_end m tail ->
+  contains marker tail = false ->
+  ~ In 37 (pre ++ txt ++ tail) ->
+  finished (skipn (N.to_nat Consts.det_finished_offset) (txt ++ tail)) = false ->
+  parse_version (m_ver m) = Some ver ->
+  (dedup_eligible w (id_value (m_id m)) = true -> map_find (d_map d) (id_value (m_id m)) = None) ->
+  detect w d tunnel (pre ++ txt ++ tail) =
+    (if d_relay d then pre ++ txt ++ fst (span_relay tail) ++ Consts.det_relay_suffix ++ snd (span_relay tail)
+     else replace_all Consts.det_client_old Consts.det_client_new (pre ++ txt ++ tail),
+     Some {| t_mode := m_mode m; t_version := ver; t_id := id_value (m_id m);
+             t_win := win_server (id_value (m_id m)); t_port := port_value (m_port m); t_prefix := [] |},
+     set_map d (snd (is_repeated w (d_map d) (id_value (m_id m))))).
+Proof.
+  intros w d tunnel pre m txt tail ver Hrt Htxt Hgr Hc Hp Hfin Hver Hfresh.
+  rewrite (fires_plain w d tunnel pre m txt tail ver Hrt Htxt Hgr (last_marker_clean _ _ _ Htxt Hc)
+             (or_introl (find_tmux_no_percent _ Hp)) Hfin Hver Hfresh).
+  rewrite (find_tmux_no_percent _ Hp). now rewrite (add_relay_suffix_shape pre m txt tail Htxt).
+Qed.
+
+(* C06_relay_forward with primitive premises (plain relay mode): only the look-ahead
+   premise on the forwarded tail remains, and it cannot be dropped (relay_forward_refuted) *)
+Lemma relay_forward_clean : forall w d tunnel pre m txt tail ver w2 tmux2,
+  let tail' := fst (span_relay tail) ++ Consts.det_relay_suffix ++ snd (span_relay tail) in
+  d_relay d = true -> d_tmux d = false ->
+  trigger_text m txt -> greedy_end m tail ->
+  contains marker tail = false ->
+  ~ In 37 (pre ++ txt ++ tail) ->
+  finished (skipn (N.to_nat Consts.det_finished_offset) (txt ++ tail)) = false ->
+  finished (skipn (N.to_nat Consts.det_finished_offset) (txt ++ tail')) = false ->
+  parse_version (m_ver m) = Some ver ->
+  (dedup_eligible w (id_value (m_id m)) = true -> map_find (d_map d) (id_value (m_id m)) = None) ->
+  exists t d' out2 d2,
+    detect w d tunnel (pre ++ txt ++ tail) = (pre ++ txt ++ tail', Some t, d') /\
+    contains Consts.det_relay_suffix (pre ++ txt ++ tail') = true /\
+    detect w2 (new_det false tmux2) tunnel (pre ++ txt ++ tail') = (out2, Some t, d2).
+Proof.
+  intros w d tunnel pre m txt tail ver w2 tmux2 tail' Hr Ht Htxt Hgr Hc Hp Hfin Hfin' Hver Hfresh.
+  assert (Hrt : d_relay d && d_tmux d = false) by now rewrite Ht, andb_false_r.
+  destruct (span_relay_spec tail) as [Hs _].
+  assert (Hc' : contains marker tail' = false) by (unfold tail'; apply marker_insert; now rewrite <- Hs).
+  assert (Hp' : ~ In 37 (pre ++ txt ++ tail')).
+  { intro Hi. apply Hp. rewrite Hs. unfold tail' in Hi. rewrite !in_app_iff in Hi |- *.
+    destruct relay_suffix_is as [Hrs _]. rewrite Hrs in Hi.
+    cbn [In] in Hi. repeat (destruct Hi as [Hi|Hi]); auto; try discriminate Hi; contradiction. }
+  pose proof (relay_forward_partial w d tunnel (pre ++ txt ++ tail) pre m txt tail ver w2 tmux2) as H.
+  cbv zeta in H. rewrite Hrt in H. fold tail' in H.
+  apply H; try assumption; try reflexivity.
+  - apply N.ltb_ge. rewrite min_len_ok. unfold nlen. rewrite !app_length. pose proof (trigger_text_length _ _ Htxt). lia.
+  - now rewrite (last_index_app_pre _ pre _ _ (last_marker_clean _ _ _ Htxt Hc)).
+  - now apply (last_marker_clean m).
+  - left. now apply find_tmux_no_percent.
+  - now apply (last_marker_clean m).
+  - now rewrite !find_tmux_no_percent.
+Qed.
